@@ -107,6 +107,12 @@ BomLemma ==
 HorspoolLemma ==
     (algo = "horspool") => \A c \in Sym : HShift(p, c) \in 1..M
 
+\* the closed form used for huge texts equals the definition (evaluated in one state only)
+CombLemma ==
+    (algo = "kmp" /\ k = 0 /\ p = <<1>> /\ t = << >>) =>
+        \A L \in 1..5, r \in 0..3, m \in 0..4 :
+            m < L => Occ(CombPattern(m, 1, 2), CombText(L, r, 1, 2)) = CombOcc(L, r, m)
+
 \* progress: every step moves the position forward (termination)
 Progress == [][done' \/ k' > k]_vars
 =============================================================================
